@@ -277,6 +277,12 @@ class Result:
         self.coverage = {}
         self.assumptions = []
         self.notes = []
+        # replays of earlier runs of this property are stale: every run rewrites its own
+        rd = os.path.join(EVID, "replays")
+        if os.path.isdir(rd):
+            for f in os.listdir(rd):
+                if f.startswith(pid + "-"):
+                    os.remove(os.path.join(rd, f))
 
     def obligation(self, name, ok, **kw):
         self.obligations.append(dict(name=name, ok=bool(ok), **kw))
